@@ -190,6 +190,10 @@ func tAttrName(c context, s []byte) (context, int) {
 	} else if i != len(s) {
 		c.state = stateAfterName
 	}
+	if i > 0 {
+		// e.g. `<iframe src{{/* comment */}}doc="...">`: the pieces form one name in the output.
+		c.attr.continued = true
+	}
 	return c, i
 }
 
